@@ -191,10 +191,34 @@ type plainWriter struct{ s *c13Sink }
 
 func (w plainWriter) Write(p []byte) (int, error) { return w.s.Write(p) }
 
-func c13CheckMulti(t interface{ Fatalf(string, ...any) }, sinks []*c13Sink, payloads [][]byte, desc string) {
+// c13CheckMulti builds the multi syncer flat, or nested according to groups
+// (sizes of consecutive sub-groups; a sub-group of >= 2 sinks becomes its own
+// NewMultiWriteSyncer): nesting must not change anything observable.
+func c13CheckMulti(t interface{ Fatalf(string, ...any) }, sinks []*c13Sink, payloads [][]byte, desc string, groups ...int) {
 	ws := make([]zapcore.WriteSyncer, len(sinks))
 	for i, s := range sinks {
 		ws[i] = s
+	}
+	if len(groups) > 0 {
+		var parts []zapcore.WriteSyncer
+		i := 0
+		for _, g := range groups {
+			if i >= len(ws) {
+				break
+			}
+			if i+g > len(ws) {
+				g = len(ws) - i
+			}
+			if g >= 2 {
+				parts = append(parts, zapcore.NewMultiWriteSyncer(ws[i:i+g:i+g]...))
+			} else {
+				parts = append(parts, ws[i])
+			}
+			i += g
+		}
+		parts = append(parts, ws[i:]...)
+		ws = parts
+		desc += fmt.Sprintf(" nested%v", groups)
 	}
 	m := zapcore.NewMultiWriteSyncer(ws...)
 	for c, p := range payloads {
@@ -280,8 +304,17 @@ func propC13Multi(t *rapid.T) {
 			}
 		}
 	}
-	c13CheckMulti(t, sinks, payloads, sig)
-	statCase("C13", minNotFirst, "multi|"+sig, "multi syncer")
+	var groups []int
+	if rapid.Bool().Draw(t, "nested") {
+		groups = rapid.SliceOfN(rapid.IntRange(1, 3), 1, 3).Draw(t, "groupSizes")
+		sig += fmt.Sprint("g", groups)
+	}
+	c13CheckMulti(t, sinks, payloads, sig, groups...)
+	labels := []string{"multi syncer"}
+	if len(groups) > 0 {
+		labels = append(labels, "nested multi syncers")
+	}
+	statCase("C13", minNotFirst, "multi|"+sig, labels...)
 	if minNotFirst {
 		statSample("C13", func() string { return "multi outcomes " + sig })
 	}
@@ -350,6 +383,29 @@ func propC13Wrappers(t *rapid.T) {
 	serr := lk.Sync()
 	if (serr != nil) != o.Sync || s3.syncs != 1 {
 		t.Fatalf("Lock.Sync relayed %v (want error: %v), inner syncs %d", serr, o.Sync, s3.syncs)
+	}
+	// BufferedWriteSyncer over a sink with scripted results (incl. one that reports a
+	// short count without an error): it must never pass a short count on with a nil error
+	for _, size := range []int{1, len(p), len(p) + 1, 4096} {
+		if size == 0 {
+			continue
+		}
+		s5 := &c13Sink{name: "s5", outs: []c13Outcome{o, o, o, o}}
+		bws := &zapcore.BufferedWriteSyncer{WS: s5, Size: size, FlushInterval: time.Hour}
+		n1, e1 := bws.Write(p)
+		n2, e2 := bws.Write(p)
+		_ = bws.Stop()
+		for _, r := range []struct {
+			n   int
+			err error
+		}{{n1, e1}, {n2, e2}} {
+			if r.n < len(p) && r.err == nil {
+				t.Fatalf("BufferedWriteSyncer(Size=%d).Write(%d bytes) over a sink returning %+v = (%d, nil): a short count without an error", size, len(p), o, r.n)
+			}
+			if r.n > len(p) || r.n < 0 {
+				t.Fatalf("BufferedWriteSyncer.Write returned count %d for %d bytes", r.n, len(p))
+			}
+		}
 	}
 	// a single-sink multi syncer is the sink itself or behaves like it
 	s4 := &c13Sink{name: "s4", outs: []c13Outcome{o}}
